@@ -49,6 +49,19 @@ META = {
 TOL = 1e-9
 
 
+_PER_MECH = {}
+
+
+def _viol(ctx, monitor, message, case=None, mech=None, observed=None, expected=None):
+    """At most 3 witnesses per mechanism and shard (the bus keeps 40 per shard): further ones are only counted."""
+    n = _PER_MECH.get(mech, 0)
+    _PER_MECH[mech] = n + 1
+    if n < 3:
+        ctx.violation(monitor, message, case=case, mech=mech, observed=observed, expected=expected)
+    else:
+        ctx.count(f"more_witnesses[{mech}]")
+
+
 def run(ctx):  # noqa: C901
     import warnings
 
@@ -136,7 +149,7 @@ def run(ctx):  # noqa: C901
             res = float(np.max(np.abs(T - E))) / max(np.sqrt(pb_direct), 1e-12)
             binfo = {**info, "branch": b.record, "p": pb_direct, "n_measurements": nmeas, "work": [w.kind for w in work]}
             if res > 1e-7:
-                ctx.violation("branch.unitary", f"{tagkey}::{rule.name} on {info['op']}: outcome branch {b.record!r} (p={pb_direct:.4f}) does not act "
+                _viol(ctx, "branch.unitary", f"{tagkey}::{rule.name} on {info['op']}: outcome branch {b.record!r} (p={pb_direct:.4f}) does not act "
                                                 f"as the operator's unitary times a fixed auxiliary state (relative residual {res:.3e})",
                               case=binfo, mech=f"branch:{tagkey}:{rule.name}", observed={"residual": res, "p": pb_direct})
                 continue
@@ -153,7 +166,7 @@ def run(ctx):  # noqa: C901
             for rec, A, p in aux[1:]:
                 d = sv_phase_dist(A, ref)
                 if d > 1e-7:
-                    ctx.violation("branch.aux", f"{tagkey}::{rule.name} on {info['op']}: auxiliary wires end in different states on branches "
+                    _viol(ctx, "branch.aux", f"{tagkey}::{rule.name} on {info['op']}: auxiliary wires end in different states on branches "
                                                 f"{aux[0][0]!r} and {rec!r} (distance {d:.3e}) — not a known state",
                                   case={**info, "branches": [aux[0][0], rec], "work": [w.kind for w in work]},
                                   mech=f"aux-branch-dependent:{tagkey}:{rule.name}", observed={"distance": d})
@@ -169,7 +182,7 @@ def run(ctx):  # noqa: C901
                     other = tuple(j for j in range(len(work)) if j != i)
                     pr = np.sum(np.abs(a) ** 2, axis=other) if other else np.abs(a) ** 2
                     if pr[1] > 1e-9:
-                        ctx.violation("branch.aux", f"{tagkey}::{rule.name} on {info['op']}: zeroed work wire is not restored to |0> "
+                        _viol(ctx, "branch.aux", f"{tagkey}::{rule.name} on {info['op']}: zeroed work wire is not restored to |0> "
                                                     f"(P(1)={pr[1]:.3e})", case=info, mech=f"aux-not-restored:{tagkey}:{rule.name}")
                         break
         elif aux:
